@@ -5,6 +5,7 @@ CONSTANTS
   SharedDefault = FALSE
   AliasInput = TRUE
   LeakyObserver = FALSE
+  AliasResult = FALSE
 INVARIANT Independent
 INVARIANT Deterministic
 INVARIANT FreshDefaults
